@@ -339,6 +339,9 @@ func (r *Recorder) SetCheck(name string) {
 // the last execution is the minimal one, and its decoded case becomes the
 // replay file. Other sub-checks still run.
 func (r *Recorder) Check(t *testing.T, name string, n int, prop func(*rapid.T)) bool {
+	if only := os.Getenv("VERIF_ONLY"); only != "" && !strings.Contains(name, only) {
+		return true // development aid: run a subset of sub-checks
+	}
 	r.SetCheck(name)
 	r.mu.Lock()
 	r.lastFail = nil
